@@ -29,7 +29,7 @@ func ids(rec *mon.Recorder, n int) []uuid.UUID {
 	for i := range u {
 		u[i] = 0xff
 	}
-	out = append(out, u) // all ones
+	out = append(out, u)             // all ones
 	for bit := 0; bit < 128; bit++ { // single bits
 		var b uuid.UUID
 		b[bit/8] = 1 << uint(bit%8)
@@ -280,6 +280,51 @@ func system(rec *mon.Recorder, c int) {
 					rec.Seen("paths", fmt.Sprintf("entry%d:%s>%s>%s", entry.Id, ins, upd, rem))
 				}
 			}
+		}
+	}
+	// --- batches that span partitions: every item of one request goes to its own
+	// owner, whatever else is in the request
+	for round := 0; round < 3 && !violated; round++ {
+		entry := cl.Nodes[round%nodes]
+		n := 8 + rng.Intn(17)
+		var items []*pb.BatchItem
+		var ids []uuid.UUID
+		for i := 0; i < n; i++ {
+			var id uuid.UUID
+			rng.Read(id[:])
+			ids = append(ids, id)
+			items = append(items, &pb.BatchItem{Id: id.Bytes(), Value: []float32{float32(2000 + i), 1, 2}, Metadata: map[string]string{"p": "multi"}})
+		}
+		for _, step := range []string{"batch-insert", "batch-update", "batch-remove"} {
+			cctx, cancel := context.WithTimeout(ctx, 10*time.Second)
+			var errs map[uuid.UUID]error
+			var err error
+			switch step {
+			case "batch-insert":
+				errs, err = entry.Dataset(dsId).BatchInsert(cctx, items)
+			case "batch-update":
+				errs, err = cl.Nodes[(round+1)%nodes].Dataset(dsId).BatchUpdate(cctx, items)
+			default:
+				errs, err = cl.Nodes[(round+2)%nodes].Dataset(dsId).BatchRemove(cctx, items)
+			}
+			cancel()
+			if err != nil {
+				fail("write-failed:multi-"+step, fmt.Sprintf("%s of %d ids spanning partitions: %v", step, n, err))
+				return
+			}
+			for _, id := range ids {
+				if e := errs[id]; e != nil {
+					fail("not-found-in-owner:multi-"+step, fmt.Sprintf("%s of %d ids spanning partitions: id %s (owner partition %d): %v", step, n, id, utils.UuidMod(id, uint64(parts)), e))
+					return
+				}
+			}
+			for _, id := range ids {
+				if violated {
+					return
+				}
+				expectStored(id, "multi-"+step, step != "batch-remove")
+			}
+			rec.Seen("paths", "multi-partition-"+step)
 		}
 	}
 	// --- every restart computes the same owner: items written before a restart (by
